@@ -91,7 +91,7 @@ def run(spec):
   cls.append('|r|:%s' % ('<0.5' if abs(corr) < 0.5 else '<0.9' if abs(corr) < 0.9 else '<0.99' if abs(corr) < 0.99 else '>=0.99'))
   # (a) closed form
   want = R.required_impact(y, corr, par_kw)
-  cond = 4e-16 / max(1e-300, 1.0 - corr * corr)   # 1 - rho^2 amplifies the last ulp of rho
+  cond = 2e-15 / max(1e-300, 1.0 - corr * corr)   # 1 - rho^2 amplifies the last ulp of rho
   if not util.close(I, want, 1e-9 + cond):
     viol.append(('C05:closed-form', dict(det, got=float(I), want=want)))
   tsig = R.t_ppf(spec['sig'], n - 2)
